@@ -235,7 +235,13 @@ def match_template(template, program):
                     val = float(res[-1])
 
                 if key in argmatch:
-                    if argmatch[key] != val:
+                    try:
+                        # values solved from different arguments agree up to rounding only
+                        consistent = bool(np.isclose(argmatch[key], val))
+                    except TypeError:
+                        consistent = argmatch[key] == val
+
+                    if not consistent:
                         raise TemplateError("Template parameter {} matches inconsistent values: "
                                             "{} and {}".format(key, val, argmatch[key]))
 
